@@ -483,6 +483,25 @@ def _queue_mutators(E):
     return out
 
 
+def _only_called_from_contracted_methods(E, mname, known):
+    """A PRIVATE helper all of whose call sites (self.<name>(...)) are inside methods that have a queue contract of their own
+    is executed, with its real body, whenever those contracts are checked: it is part of them, not an operation of its own."""
+    import ast as _ast
+    import os as _os
+    if not mname.startswith('_') or mname.startswith('__'):
+        return False
+    callers = set()
+    for rel in ('rsocket/rsocket_base.py', 'rsocket/rsocket_client.py', 'rsocket/rsocket_server.py'):
+        tree = _ast.parse(open(_os.path.join(E.repo_root, rel)).read())
+        for cls in [n for n in tree.body if isinstance(n, _ast.ClassDef)]:
+            for fn in [n for n in cls.body if isinstance(n, (_ast.FunctionDef, _ast.AsyncFunctionDef))]:
+                for n in _ast.walk(fn):
+                    if isinstance(n, _ast.Attribute) and n.attr == mname and isinstance(n.value, _ast.Name) and n.value.id == 'self' \
+                            and fn.name != mname:
+                        callers.add(fn.name)
+    return bool(callers) and all(c in known for c in callers)
+
+
 @harness('c05.queue_frame_condition.bounded', ['C05', 'C10', 'C09', 'C08', 'C01'], kind='bounded', functions=[BASE + '.send_frame'],
          assumptions=['BOUNDED stand-in for operations on the send queue that have no contract of their own (none on the unchanged '
                       'tree): queue of up to 3 sources with symbolic streams / started flags; integer arguments symbolic'])
@@ -492,8 +511,16 @@ def queue_frame_condition(E):
     reassembling it - a partially sent source is never dropped."""
     muts = _queue_mutators(E)
     E.cover('scanned')
-    known = [m for m in muts if m[2] in KNOWN_QUEUE_METHODS]
-    other = [m for m in muts if m[2] not in KNOWN_QUEUE_METHODS]
+    names = set(KNOWN_QUEUE_METHODS)
+    changed = True
+    while changed:          # helpers of helpers
+        changed = False
+        for m in muts:
+            if m[2] not in names and _only_called_from_contracted_methods(E, m[2], names):
+                names.add(m[2])
+                changed = True
+    known = [m for m in muts if m[2] in names]
+    other = [m for m in muts if m[2] not in names]
     E.prove('frame_condition:every_other_user_of_the_send_queue_is_checked_below', len(other) == len([m for m in muts if m not in known]))
     for rel, cname, mname, op, is_async, nargs in other:
         E.import_module('asyncio')
